@@ -95,6 +95,8 @@ type Fn struct {
 	Count  bool   `json:"count,omitempty"` // increment the user metric counter on every call
 	Fail   *Fail  `json:"fail,omitempty"`
 	YieldN int    `json:"yield,omitempty"` // call runtime.Gosched every YieldN calls (C19)
+	Gauge   bool  `json:"gauge,omitempty"`    // readerfunc: maintain the gauge of concurrently active tasks (C14)
+	SleepUs int   `json:"sleep_us,omitempty"` // readerfunc: sleep this long per call
 }
 
 // Node is one operator of a program.
@@ -137,6 +139,9 @@ type ArgInfo struct {
 // the invocation codec.
 type Spec struct {
 	RunID int       `json:"run_id"`
+	// PanicOnBuild > 0: the PanicOnBuild-th construction of this program's slice (1 = on the driver,
+	// 2 = the first worker that compiles the invocation, ...) panics.
+	PanicOnBuild int `json:"panic_on_build,omitempty"`
 	Nodes []Node    `json:"nodes"`
 	Args  []ArgInfo `json:"args,omitempty"`
 }
